@@ -206,13 +206,6 @@ func init() {
 				q := genRequest(r, ReqOpts{MaxBiases: 4, Methods: []string{"weightedSum", "majorityHeuristic", "electreIII", "satisfactionHeuristic", "aspectEliminationHeuristic"},
 					Biases: []string{"criteriaOmission", "preferenceReversal", "fatigue", "anchoring"}})
 				bl, _ := q.Body["biases"].([]interface{})
-				if r.chance(0.12) && len(q.Problem.Criteria) >= 2 {
-					// criteria mixing as the first bias (it needs two current criteria to have anything to report)
-					mix := J{"name": "criteriaMixing", "props": biasPropsJSON(r, "criteriaMixing", q.Problem)}
-					bl = append([]interface{}{mix}, bl...)
-					q.Body["biases"] = bl
-					o.count("real:mixing-first")
-				}
 				for _, b := range bl { // sprinkle disabled entries and probabilities
 					if r.chance(0.2) {
 						b.(J)["disabled"] = true
@@ -238,6 +231,20 @@ func init() {
 					bl = append(bl, J{"name": "noSuchBias", "disabled": true, "props": J{}})
 					r.Shuffle(len(bl), func(i, j int) { bl[i], bl[j] = bl[j], bl[i] })
 					q.Body["biases"] = bl
+				}
+				if r.chance(0.12) && len(q.Problem.Criteria) >= 2 {
+					// criteria mixing as the FIRST bias, inserted after every shuffle of the list (it needs two current criteria to
+					// have anything to report: behind an omission it may legitimately report nothing)
+					mix := J{"name": "criteriaMixing", "props": biasPropsJSON(r, "criteriaMixing", q.Problem)}
+					var rest []interface{}
+					for _, b := range bl { // no omission in such a list: wherever the oracles below move the mixing, two criteria remain
+						if b.(J)["name"] != "criteriaOmission" {
+							rest = append(rest, b)
+						}
+					}
+					bl = append([]interface{}{mix}, rest...)
+					q.Body["biases"] = bl
+					o.count("real:mixing-first")
 				}
 				seed := int64(q.Body["biasApplyRandomSeed"].(int))
 				if r.chance(0.15) { // an omitted seed is seed 0
